@@ -259,9 +259,9 @@ theorem lexDocument_declaration_erase (d : Declaration) (ts : List Token) (h : L
     (henc : ∀ e, d.encoding = some e → e.all encChar = true) :
     ∃ v e sa sp ts', lexDocument (d.bytes ++ renderTokens ts) =
         (.declaration ⟨['1', '.', '0'], v⟩ e sa sp :: ts', none) ∧
-      ts'.map Token.erase = ts.map Token.erase := by
+      ts'.map Token.erase = ts.map Token.erase ∧ tokensPrefixOk ts' = true := by
   obtain ⟨v, e, sa, sp, q, hl⟩ := lexDocument_declaration d ts h henc
-  exact ⟨v, e, sa, sp, placeTokens q ts, hl, placeTokens_erase q ts⟩
+  exact ⟨v, e, sa, sp, placeTokens q ts, hl, placeTokens_erase q ts, placeTokens_prefixOk ts q⟩
 
 /-- **Fragment mode**: `parse_fragment` starts in element content, where `<?xml ` is an error: no token,
     the error at position 0. -/
